@@ -4,8 +4,10 @@ import TucanProofs.Lemmas.Hill
 # The declarative grammar and the recogniser
 
 `Sentence ts ast` is the published grammar (`tucan.ebnf` / `tucan.g4`) as an inductive relation on
-token lists, transcribed rule by rule and sharing no code with the model's recursive-descent reader
-`parseTucan`.  The element order of the two formula rules is the one regenerated from the parser's ATN.
+token lists, transcribed rule by rule, a relation where the model's reader `parseTucan` is a recursive-descent
+function.  What the two share: the token classes `isGtZero`, `isGtOne`, `isKey` (the grammar's "no leading zero",
+"> 1", "> 0" and key rules are these Boolean tests in both) and the two element-order tables `withCarbonOrder`,
+`withoutCarbonOrder`, regenerated from the parser's ATN and compared with `tucan.g4` by `C10_grammar_tables`.
 `parseTucan_iff` says the reader accepts exactly the sentences and returns exactly their syntax tree.
 -/
 namespace Tucan
